@@ -16,7 +16,7 @@ From Coq Require Import List ZArith NArith Bool.
 From MxlBase Require Import ListX.
 From Scan Require Import ScanGeneric.
 Import ListNotations.
-Open Scope Z_scope.
+Local Open Scope Z_scope.
 
 Definition name := N.
 Definition TIME : name := 0%N.
